@@ -55,7 +55,8 @@ func (r *rewriter) isCallStmtOf(pkg loader.Pkg, n ast.Node, callee types.Object)
 	if !ok {
 		return nil, false
 	}
-	call, ok := expr.X.(*ast.CallExpr)
+	// `(Yield(v))` is the same statement as `Yield(v)`
+	call, ok := astutil.Unparen(expr.X).(*ast.CallExpr)
 	if !ok {
 		return nil, false
 	}
